@@ -9,6 +9,9 @@ pub use remote_client::RemoteClient;
 
 pub use crate::error::CasClientError;
 pub use crate::interface::ShardClientInterface;
+/// Traits an external `Client` implementation (verification harness) must be able to name.
+#[cfg(feature = "verif")]
+pub use crate::interface::{RegistrationClient as VerifRegistrationClient, ShardDedupProber as VerifShardDedupProber};
 
 mod error;
 mod http_client;
